@@ -179,15 +179,17 @@ def same_binning(b0, b1):
     return And(*cs)
 
 
-def same_hist(h0, h1, stats=True):
-    """every observable of the histogram is unchanged (binning caches excepted)"""
+def same_hist(h0, h1, stats=True, dtype=True):
+    """every observable of the histogram is unchanged (binning caches excepted).
+    dtype=False: the values are unchanged but the dtype may have been promoted losslessly (allowed on refusing paths)."""
     b0, b1 = attr(h0, "_binnings"), attr(h1, "_binnings")
     if len(b0) != len(b1) or typename(h0) != typename(h1):
         return False
     cs = [same_binning(x, y) for x, y in zip(b0, b1)]
     for f in ("_frequencies", "_errors2", "_missed", "_meta_data"):
         cs.append(same(attr(h0, f), attr(h1, f)))
-    cs.append(attr(h0, "_dtype") == attr(h1, "_dtype"))
+    if dtype:
+        cs.append(attr(h0, "_dtype") == attr(h1, "_dtype"))
     cs.append(attr(h0, "keep_missed") == attr(h1, "keep_missed"))
     if stats and has(h0, "_stats"):
         cs.append(has(h1, "_stats") and same(attr(h0, "_stats"), attr(h1, "_stats")))
